@@ -2,8 +2,8 @@
    permitted sides of the source, nth_element / partial_sort, the iterator helpers advance / next /
    prev / distance, reverse_iterator, and the comparator of the overloads without a comparator.
    All for EVERY list / position / distance; `= Ok ...` also says no access outside the array. *)
-From Tetl Require Import Lib.Base Lib.Arr C06a.Model C06a.Spec C06a.Spec2 C06a.IterModel C06a.Instances2
-  C06a.P2_Gnome C06a.P3_Extra.
+From Tetl Require Import Lib.Base Lib.Arr C06a.Model C06a.ModelOut C06a.Spec C06a.Spec2 C06a.IterModel C06a.Instances2
+  C06a.P1_Unique C06a.P1_Copy C06a.P2_Gnome C06a.P3_Extra C06a.P3_Out.
 From Coq Require Import Lia Sorting.Sorted Sorting.Permutation.
 
 (** ** copy / move with source and destination in the same array: [alg.copy] allows every
@@ -23,6 +23,60 @@ Proof.
   - intros dlast Hd Hfit Hdl. apply move_bwd_within; assumption.
 Qed.
 Print Assumptions C06_copy_within_correct.
+
+(** ** the one-pass copying algorithms with an explicit, checked DESTINATION buffer d and output
+    cursor pos: exactly [pos, pos + n) of the destination receives the list-level result (emit_spec),
+    the returned iterator is pos + n, nothing else is written; a destination that is too small is
+    UB OutOfBounds (never a silent overrun).  The hypotheses are "the result fits" and, where the
+    algorithm reads through a second unbounded iterator, "that range is long enough". *)
+Theorem C06_copying_family_correct : forall (A : Type) (src d : list A) (pos : nat),
+  (pos + length src <= length d -> copy_out src d pos = Ok (emit_spec d pos src))
+  /\ (pos <= length d -> length d < pos + length src -> copy_out src d pos = UB OutOfBounds)
+  /\ (forall p, pos + length (filter p src) <= length d ->
+        copy_if_out p src d pos = Ok (emit_spec d pos (filter p src)))
+  /\ (forall p, pos + length (remove_if_spec p src) <= length d ->
+        remove_copy_if_out p src d pos = Ok (emit_spec d pos (remove_if_spec p src)))
+  /\ (forall f, pos + length src <= length d -> transform1_out f src d pos = Ok (emit_spec d pos (map f src)))
+  /\ (forall f l2, length src <= length l2 -> pos + length src <= length d ->
+        transform2_out f src l2 d pos = Ok (emit_spec d pos (map (fun ab => f (fst ab) (snd ab)) (combine src l2))))
+  /\ (forall n, (n <= Z.of_nat (length src))%Z -> pos + Z.to_nat n <= length d ->
+        copy_n_out src n d pos = Ok (emit_spec d pos (copy_n_spec src (Z.to_nat n))))
+  /\ (forall n v, pos + Z.to_nat n <= length d -> fill_n_out n v d pos = Ok (emit_spec d pos (repeat v (Z.to_nat n))))
+  /\ (forall (S : Type) (g : S -> A * S) (s : S) n, pos + Z.to_nat n <= length d ->
+        generate_n_out n g s d pos = Ok (emit_spec d pos (gen_values (Z.to_nat n) g s)))
+  /\ (pos + length src <= length d -> reverse_copy_out src d pos = Ok (emit_spec d pos (rev src)))
+  /\ (forall m, m <= length src -> pos + length src <= length d ->
+        rotate_copy_out src m d pos = Ok (emit_spec d pos (rotate_copy_spec src m)))
+  /\ (forall eqv : A -> A -> bool,
+        (forall x, eqv x x = true) -> (forall x y, eqv x y = true -> eqv y x = true) ->
+        (forall x y z, eqv x y = true -> eqv y z = true -> eqv x z = true) ->
+        pos + length (unique_spec eqv src) <= length d ->
+        unique_copy_out eqv src d pos = Ok (emit_spec d pos (unique_spec eqv src)))
+  /\ (forall p d2 p2, pos + length (filter p src) <= length d ->
+        p2 + length (filter (fun x => negb (p x)) src) <= length d2 ->
+        partition_copy_out p src d pos d2 p2
+        = Ok (emit_spec d pos (fst (partition_copy_spec p src)), emit_spec d2 p2 (snd (partition_copy_spec p src))))
+  /\ (length src <= pos -> pos <= length d -> copy_backward_out src d pos = Ok (emit_backward_spec d pos src))
+  /\ (pos < length src -> pos <= length d -> copy_backward_out src d pos = UB OutOfBounds).
+Proof.
+  intros A src d pos. repeat split.
+  - apply copy_out_ok.
+  - apply copy_out_overrun.
+  - intros p. apply copy_if_out_ok.
+  - intros p. apply remove_copy_if_out_ok.
+  - intros f. apply transform1_out_ok.
+  - intros f l2. apply transform2_out_ok.
+  - intros n. apply copy_n_out_ok.
+  - intros n v. apply fill_n_out_ok.
+  - intros S g s n H. unfold generate_n_out. apply generate_n_loop_ok. exact H.
+  - apply reverse_copy_out_ok.
+  - intros m Hm H. rewrite <- (rotate_copy_correct src m Hm). apply rotate_copy_out_ok; assumption.
+  - intros eqv R S T H. rewrite <- (unique_copy_correct eqv R S T src) in *. apply unique_copy_out_ok. exact H.
+  - intros p d2 p2 H1 H2. rewrite <- (partition_copy_correct p src). apply partition_copy_out_ok; assumption.
+  - apply copy_backward_out_ok.
+  - apply copy_backward_out_underrun.
+Qed.
+Print Assumptions C06_copying_family_correct.
 
 (** ** nth_element and partial_sort forward to sort = gnome_sort: the result is a sorted
     permutation, hence satisfies [alg.nth.element] for EVERY nth and [partial.sort] for every middle *)
@@ -109,5 +163,9 @@ Example C06a_p3_nonvacuous :
   /\ move_bwd 9 [1; 2; 3; 4; 5; 6] 4 6 2 = Ok ([5; 6; 3; 4; 5; 6], 0)
   /\ advance_m CatBidi 5 (-3) = 2%Z /\ advance_m CatForward 5 (-3) = 5%Z
   /\ distance_m CatInput 2 6 = Ok 4%Z /\ distance_m CatRandom 6 2 = Ok (-4)%Z
-  /\ rev_lt 5 0 = true /\ rev_lt 0 5 = false.
+  /\ rev_lt 5 0 = true /\ rev_lt 0 5 = false
+  /\ copy_if_out Nat.even [1; 2; 3; 4] [0; 0; 0; 0; 0] 1 = Ok ([0; 2; 4; 0; 0], 3)
+  /\ unique_copy_out Nat.eqb [1; 1; 2; 2; 1] [0; 0; 0; 0; 0] 0 = Ok ([1; 2; 1; 0; 0], 3)
+  /\ copy_backward_out [1; 2; 3] [0; 0; 0; 0; 0] 4 = Ok ([0; 1; 2; 3; 0], 1)
+  /\ copy_out [1; 2; 3] [0; 0] 0 = UB OutOfBounds.
 Proof. vm_compute. repeat split; reflexivity. Qed.
